@@ -12,10 +12,10 @@ CLAIMED = {
 
  "C10": ("exhaustive integer-grid triples + rapid near-collinear floats vs big.Rat determinant sign",
          "Bounded-exhaustive enumeration of every ordered triple of a 5x5 (quick) / 9x9 (thorough) grid plus generated-input search aimed at the region the floating-point filter cannot decide (points within a few ulps of a line, shared exponents, lattice directions on large offsets); each result of bigxy.OrientationIndex and xy.OrientationIndex is compared with the exact rational sign and with its own argument permutations.",
-         "Trusts math/big.Rat; domain restricted to |ordinate| in {0} u [1e-100,1e100] as the property states.", "DESIGN.md §4 C10"),
- "C13": ("exhaustive 3x3-grid point lists + rapid point sets vs exact integer monotone-chain hull",
-         "Every ordered list of 1..5 points of the 3x3 grid is enumerated on every run, and generated point sets of 1..200 points (around the 50-point switch, duplicates, collinear runs, circle-like, lattices, offsets) are compared with an exact monotone-chain hull: result kind, vertex set, strict consistent turning, closure, provenance of every ordinate and input immutability.",
-         "Trusts the int64 reference hull (coordinates below 2^29 so cross products cannot overflow).", "DESIGN.md §4 C13"),
+         "Trusts math/big.Rat; domain: every finite float64 (subnormals, +-MaxFloat64, shared exponents where products of differences underflow or overflow), as the statement says \"any three points\".", "DESIGN.md §4 C10"),
+ "C13": ("exhaustive 3x3-grid point lists + rapid integer and float point sets vs exact monotone-chain hull (int64 / big.Rat)",
+         "Every ordered list of 1..5 points of the 3x3 grid is enumerated on every run, and generated point sets of 1..200 points (around the 50-point switch, duplicates, collinear runs, circle-like, lattices, offsets) are compared with an exact monotone-chain hull: result kind, vertex set, strict consistent turning, closure, provenance of every ordinate and input immutability; a quarter of the cases are float point sets (nearly collinear runs a few ulps off a segment, circles, a small shape at a large offset, both ends of the float64 range) checked against the same hull in exact rational arithmetic; layouts with up to 6 ordinates; the input array is refilled with other points and handed over again.",
+         "Trusts the int64 reference hull (coordinates below 2^29 so cross products cannot overflow) and internal/exact for float inputs (positions equal as numbers are one point: 0 and -0).", "DESIGN.md §4 C13"),
  "C15": ("rapid integer segments/points in constructed clamping regions vs exact rational distances",
          "Generated-input search over points, polylines and segment pairs built by construction in every clamping region of the (s,t) parameter square, degenerate, parallel, collinear and touching classes, all 8 argument-order variants; results compared with exact rational squared distances inside the tolerance the property states.",
          "Trusts internal/exact (exact minimisation over the clamped square); tolerance 1e-9 x coordinate scale as stated by the property.", "DESIGN.md §4 C15"),
@@ -23,7 +23,7 @@ CLAIMED = {
          "Generated-input search over geometries of all types and layout mixes (nested collections, empty members, +-Inf, -0), Extend sequences with a drawn permutation, boxes built three ways for the overlap predicates, Bounds.Polygon and the GeoJSON bbox; the oracle is a reference box keyed by dimension name (X,Y,Z,M,extras).",
          "NaN ordinates excluded as the property states; a box with data in X,Y but an empty Z/M dimension is not asserted for IsEmpty/Polygon; bbox only checked when every dimension it reports holds data.", "DESIGN.md §4 C08"),
  "C19": ("rapid tracks round-tripped through encoder+decoder; generated/mutated record streams; native fuzzing",
-         "Generated-input search: tracks over the whole 1970-2069 window (day/month/year/century boundaries, boundary angles, fractional seconds and altitudes) are encoded and decoded and compared at format resolution in rational arithmetic; line-structured streams with forged I records and B records at the announced length +-1, byte mutations and (thorough) coverage-guided fuzzing check totality and result structure under a CPU-time termination budget.",
+         "Generated-input search: tracks over the whole 1970-2069 window (day/month/year/century boundaries, boundary angles, fractional seconds, fractional and out-of-range altitudes) are encoded and decoded and compared at format resolution in rational arithmetic; line-structured streams with forged I records and B records at the announced length +-1, byte mutations and (thorough) coverage-guided fuzzing check totality and result structure under a CPU-time termination budget.",
          "Timestamps compared to 1e-6 s (float64 resolution of UnixNano/1e9); streams longer than bufio.Scanner's 64 KiB line limit are silently truncated by the decoder, which the property permits.", "DESIGN.md §4 C19"),
 
  "C03": ("rapid geometry trees vs independent reference WKB/EWKB encoder; chunked readers, failing writers",
@@ -56,17 +56,17 @@ CLAIMED = {
          "Model-based generated search: a value is cloned, then up to 20 mutations (ordinate and offset writes through the accessors, Push, Reverse, SetCoords, SetSRID, TransformInPlace, Swap, Reserve, further clones) hit a drawn member of the growing list of values; after each mutation every other value's bitwise snapshot must be unchanged, which also catches shared spare capacity.",
          "nil versus empty slices are not compared (not observable through the statement); offset writes are undone after the check because they make the value ill formed.", "DESIGN.md §4 C16"),
 
- "C11": ("exhaustive 4x4-grid rings x points + rapid rings/polylines with metamorphic variants vs exact even-odd rule",
-         "All 1 114 112 (ring of 3-4 vertices, query point) cases of the 4x4 grid are enumerated on every run; generated rings up to 12 vertices on grids to 2^26 (self-intersecting, horizontal edges, repeated vertices, query points on vertices / edge midpoints / vertex levels) are checked together with their reversed, rotated, vertex-duplicated and extra-ordinate variants against the even-odd rule in exact integer arithmetic; IsOnLine / PointIntersectsLine on integer polylines and on ulp-nudged floats against an exact on-segment test.",
+ "C11": ("exhaustive 4x4-grid rings x points + rapid integer and float rings/polylines with metamorphic variants vs exact even-odd rule (int64 / big.Rat)",
+         "All 1 114 112 (ring of 3-4 vertices, query point) cases of the 4x4 grid are enumerated on every run; generated rings up to 12 vertices on grids to 2^26 (self-intersecting, horizontal edges, repeated vertices, query points on vertices / edge midpoints / vertex levels) are checked together with their reversed, rotated, vertex-duplicated and extra-ordinate variants against the even-odd rule in exact integer arithmetic; a third of the cases are rings of arbitrary finite doubles (moderate, offset, mixed, subnormal, huge magnitudes) with the point on, a few ulps beside or level with edges and vertices, against the even-odd rule in exact rational arithmetic; the ring's array is refilled with a moved ring and queried again; IsOnLine / PointIntersectsLine on integer polylines and on ulp-nudged floats against an exact on-segment test.",
          "Rings are closed and polylines have >= 2 coordinates, as the functions document; integer coordinates stay below 2^27 so the int64 oracle cannot overflow.", "DESIGN.md §4 C11"),
  "C12": ("exhaustive grid segment pairs + rapid constructed configurations x 8 variants vs exact rational classification and point bound",
-         "Every ordered pair of non-degenerate segments of the 4x4 (thorough 5x5) grid and generated pairs built by construction in each configuration class (touching, T, collinear overlap/touch/disjoint, parallel, crossing, near-parallel) are evaluated in all 8 order/direction variants: type and point set must equal the exact rational answer, endpoint intersections must be bit-identical, overlaps must have the exact endpoints, proper crossings must lie within a forward error bound derived in exact arithmetic; float inputs a few ulps from those configurations check classification; the non-robust strategy must agree on HasIntersection.",
-         "The point bound is 16u x the magnitudes of the documented normalise + homogeneous-coordinate computation (measured error <= 0.04 x bound); the central-endpoint fall-back is accepted only within that bound of an envelope border; float inputs stay at moderate magnitudes.", "DESIGN.md §4 C12"),
+         "Every ordered pair of non-degenerate segments of the 4x4 (thorough 5x5) grid and generated pairs built by construction in each configuration class (touching, T, collinear overlap/touch/disjoint, parallel, crossing, near-parallel) are evaluated in all 8 order/direction variants: type and point set must equal the exact rational answer, endpoint intersections must be bit-identical, overlaps must have the exact endpoints, proper crossings must lie within a forward error bound derived in exact arithmetic; float inputs a few ulps from those configurations check classification; classification is also checked at both ends of the float64 range (products of differences underflow or overflow) and with endpoints that carry distinct extra ordinates or have different lengths; the non-robust strategy must agree on HasIntersection.",
+         "The point bound is 16u x the magnitudes of the documented normalise + homogeneous-coordinate computation (measured error <= 0.04 x bound); the central-endpoint fall-back is accepted only within that bound of an envelope border; point accuracy is asserted on integer grids only (the statement's rounding distance presumes no overflow); a copy of any endpoint at the intersection position is exact (0 and -0 are one position).", "DESIGN.md §4 C12"),
  "C14": ("rapid valid-by-construction polygons (holes, multi, directions, start vertices) vs exact rational centroids",
          "Generated-input search with validity by construction (star-shaped shells verified with exact cross products, holes in disjoint cells inside the inscribed disc, members in disjoint boxes) and metamorphic decoration (direction, start vertex, duplicated and collinear vertices, all rings reversed): point, line and area centroids, the zero-area fall-back, the Centroid dispatch, IsRingCounterClockwise and SignedArea are compared with exact rational references under a derived forward error bound.",
          "Only valid polygons, polylines of positive total length and non-empty point sets (documented preconditions / undefined means are not generated); tolerance = 8 x forward bound of the fan decomposition about the library's base point (measured error <= 0.04 x tolerance).", "DESIGN.md §4 C14"),
  "C20": ("rapid coordinate sequences x thresholds vs exact rational point-segment distances; idempotence",
-         "Generated-input search over sequences of 0..200 points (walks, collinear runs, closed loops, repeats, zig-zags) and threshold classes: index list shape, the exact distance of every omitted point to the segment joining its retained neighbours, exactness at threshold 0, idempotence and input immutability.",
+         "Generated-input search over sequences of 0..200 points and, one case in fifty, 255..2600 points (walks, collinear runs, closed loops, repeats, zig-zags) and threshold classes: index list shape, the exact distance of every omitted point to the segment joining its retained neighbours, exactness at threshold 0, idempotence and input immutability; the input array is refilled with another line and simplified again.",
          "Rounding slack thr*2^-30 + 2^-40*scale covers the library's own floating-point distance; integer grids up to 2^16.", "DESIGN.md §4 C20"),
 
  "C17": ("rapid call mixes over a shared pool: bitwise argument snapshots, sequential-vs-concurrent result comparison, Go race detector",
